@@ -259,7 +259,7 @@ def build(ctx: RunCtx) -> Prop:
         pid=PID, title="MemBlockingControl: invariants I1-I3, exact edge effects of waiting_for_results / release_waiters, "
                        "get_blocking_invocations = ready & runnable up to the limit; release on every final transition; thread-runner slot lemma",
         level="proof", technique="contract-based deductive verification (AST->z3 VCs with quantified set/map invariants) + bounded wait-graph histories on both backends",
-        registry=reg, verify=verify, lemmas=c09_glue.lemmas(T, reg, ctx), bounded=[wait_graph_histories],
+        registry=reg, verify=verify, lemmas=c09_glue.lemmas(T, reg, ctx), bounded=[wait_graph_histories, c09_glue.waits_in_every_status, c09_glue.nested_wait_trees],
         assumptions=["the list of awaited ids is iterated as a set (idempotent body)", "threading.RLock is a re-entrant mutual-exclusion lock",
                      "every id in the ready set is a registered invocation (established by BaseOrchestrator.waiting_for_results callers)",
                      "SQL statement meaning of SQLiteBlockingControl is not proved (bounded stand-in)"],
